@@ -171,7 +171,8 @@ fn iovec_op(c: &mut Cursor) -> Op {
         16 => Op::DropSlot { slot },
         17 => Op::Flush { slot },
         18 => Op::Ensure { slot, len: size(c) },
-        19 => match c.u8() % 5 {
+        19 => match c.u8() % 6 {
+            5 => Op::PushEmptyAnchor { slot },
             0 => Op::TakeArenaBack { slot },
             1 => Op::SwapArenas { a: slot, b: c.u8() },
             2 => Op::NewFromArena { slot },
